@@ -81,6 +81,34 @@ func hostile(rng *rand.Rand, g *fixture.Geo, r *swarm.Remote) hmsg {
 		}
 		return def
 	}
+	// half of the time, if storrent has requests outstanding with us, aim at them: answers, rejects and
+	// cancels that name blocks it is really waiting for (right or wrong sizes), chokes in between
+	if out := r.Outstanding(); len(out) > 0 && rng.IntN(2) == 0 {
+		k := out[rng.IntN(len(out))]
+		switch rng.IntN(6) {
+		case 0:
+			return enc(refwire.Msg{Kind: refwire.KChoke}, "targeted choke")
+		case 1:
+			n := []int{0, 1, int(k.Length) - 1, int(k.Length), int(k.Length) + 1, 2 * int(k.Length)}[rng.IntN(6)]
+			if n < 0 {
+				n = 0
+			}
+			d := make([]byte, n)
+			off := int64(k.Index)*int64(ps) + int64(k.Begin)
+			if off+int64(n) <= g.Length && rng.IntN(2) == 0 {
+				g.TruthInto(d, off)
+			}
+			return enc(refwire.Msg{Kind: refwire.KPiece, Index: k.Index, Begin: k.Begin, Data: d}, fmt.Sprintf("targeted piece len-%d", n-int(k.Length)))
+		case 2:
+			return enc(refwire.Msg{Kind: refwire.KReject, Index: k.Index, Begin: k.Begin, Length: k.Length}, "targeted reject")
+		case 3:
+			return enc(refwire.Msg{Kind: refwire.KPiece, Index: k.Index, Begin: k.Begin + 16384, Data: make([]byte, 16384)}, "targeted piece next-block")
+		case 4:
+			return enc(refwire.Msg{Kind: refwire.KUnchoke}, "targeted unchoke")
+		default:
+			return enc(refwire.Msg{Kind: refwire.KHaveNone}, "targeted havenone")
+		}
+	}
 	switch x := rng.IntN(100); {
 	case x < 6:
 		k := []refwire.Kind{refwire.KChoke, refwire.KUnchoke, refwire.KInterested, refwire.KNotInterested, refwire.KKeepAlive}[rng.IntN(5)]
@@ -199,7 +227,45 @@ func hostile(rng *rand.Rand, g *fixture.Geo, r *swarm.Remote) hmsg {
 				p.Dropped4 = append(p.Dropped4, a4)
 			}
 		}
-		return enc(refwire.Msg{Kind: refwire.KExtended, Sub: extID("ut_pex", 1), Data: p.Payload()}, fmt.Sprintf("pex n-%d", n))
+		payload := p.Payload()
+		cls := fmt.Sprintf("pex n-%d", n)
+		if rng.IntN(3) == 0 && len(p.Added4)+len(p.Added6) > 0 {
+			// flag strings whose length disagrees with the number of peers
+			d := refwire.NewDict()
+			pack := func(ps []refwire.PexPeer) []byte {
+				var b []byte
+				for _, x := range ps {
+					a := x.Addr.Addr()
+					if a.Is4() {
+						v := a.As4()
+						b = append(b, v[:]...)
+					} else {
+						v := a.As16()
+						b = append(b, v[:]...)
+					}
+					b = append(b, byte(x.Addr.Port()>>8), byte(x.Addr.Port()))
+				}
+				return b
+			}
+			fl := func(k int) []byte {
+				m := []int{0, 1, k - 1, k + 1, 2 * k}[rng.IntN(5)]
+				if m < 0 {
+					m = 0
+				}
+				return make([]byte, m)
+			}
+			if len(p.Added4) > 0 {
+				d.Set("added", pack(p.Added4))
+				d.Set("added.f", fl(len(p.Added4)))
+			}
+			if len(p.Added6) > 0 {
+				d.Set("added6", pack(p.Added6))
+				d.Set("added6.f", fl(len(p.Added6)))
+			}
+			payload = refwire.Benc(d)
+			cls += " flags-mismatch"
+		}
+		return enc(refwire.Msg{Kind: refwire.KExtended, Sub: extID("ut_pex", 1), Data: payload}, cls)
 	case x < 84: // metadata
 		tp := int64(rng.IntN(4))
 		pc, c := bval(rng, uint32(len(g.Info())+16383)/16384)
@@ -267,15 +333,37 @@ func history(t *testing.T, c *vk.C, rng *rand.Rand, i int) map[string]int {
 				}
 			}
 			tr.Prefill(pre)
-			// demand, so that the torrent sends commands to the hostile peer too
-			for p := 0; p < g.NumPieces(); p++ {
+			// demand, so that the torrent sends commands to the hostile peer too (none in the idle-prefetch
+			// histories: there the torrent chooses pieces by itself)
+			for p := 0; p < g.NumPieces() && i%4 != 1; p++ {
 				tr.T.Request(uint32(p), int8(rng.IntN(3)), true, false)
 			}
+		}
+		if i%4 == 1 && !magnet {
+			// start the request ticker once (a piece is wanted for a moment while the canary advertises
+			// everything), then leave the torrent idle: from now on it prefetches pieces of its own choice
+			can.Send(refwire.Msg{Kind: refwire.KHaveAll})
+			sw.Cut()
+			tr.T.Request(0, 1, true, false)
+			sw.Cut()
+			tr.T.Request(0, 1, false, false)
+			sw.Cut()
+			st["idle_histories"]++
 		}
 		connect := func() *swarm.Remote {
 			caps := rng.IntN(4)
 			h := tr.Connect(swarm.RemoteOpts{Fast: caps&1 != 0, Ext: caps&2 != 0, Dht: rng.IntN(2) == 0, Incoming: rng.IntN(2) == 0})
 			st["connect"]++
+			if rng.IntN(2) == 0 && tr.T.InfoComplete() {
+				// it starts out like a seed, so that storrent hands it requests before it turns hostile
+				all := make([]byte, (g.NumPieces()+7)/8)
+				for p := 0; p < g.NumPieces(); p++ {
+					all[p/8] |= 0x80 >> uint(p%8)
+				}
+				h.SendRaw(refwire.Encode(refwire.Msg{Kind: refwire.KBitfield, Data: all}))
+				h.SendRaw(refwire.Encode(refwire.Msg{Kind: refwire.KUnchoke}))
+				st["seed_like_preamble"]++
+			}
 			return h
 		}
 		h := connect()
